@@ -11,8 +11,7 @@ reg("C08", "save / reload gives back an equivalent object",
          "within the precision the format writes (6 significant digits; Bmp: image size and order of grey levels). Each case "
          "runs in a forked child: a crash is a keyed failure C08:<class>:crash:<kind>:<first /repo function>. "
          "NOT instantiated: AnamUser (its _serialize refuses by design), MeshSpherical, DbMeshTurbo with a mask, Model with "
-         "Markov / tapering / anamorphosis attachments, Vario with dates or faults, GENERAL1-3 variogram modes (the library "
-         "exits while computing them), fitted AnamDiscreteDD (needs a MAF decomposition on a Db; its stored fields are set "
+         "Markov / tapering / anamorphosis attachments, Vario with dates or faults, fitted AnamDiscreteDD (needs a MAF decomposition on a Db; its stored fields are set "
          "through reset()), RuleShift / RuleShadow / FracFamily / FracFault have no createFromNF (loaded by tag check + public "
          "deserialize). distinct = distinct (class, discrete generator choices) signatures with at least one oracle evaluated",
     require=dict(distinct=300, oracles=dict(quick={"getters": 8000, "behaviour": 2500, "load": 900, "idempotent": 700, "stream": 3000,
